@@ -220,12 +220,12 @@ func (c *CtxObj) Invoke(ex *Exec, fr *frame, method string, args []Value) Value 
 	switch method {
 	case "Err":
 		if c.cancelled {
-			return ex.mkError("context canceled", nil)
+			return ex.ctxErrValue("Canceled", "context canceled")
 		}
 		if c.deadline != nil && ex.clock != nil {
 			expired := ex.tt.Cmp(OSle, c.deadline, ex.clock)
 			if ex.branch(expired) {
-				return ex.mkError("context deadline exceeded", nil)
+				return ex.ctxErrValue("DeadlineExceeded", "context deadline exceeded")
 			}
 		}
 		if p, ok := c.parent.(Iface); ok && p.t != nil {
@@ -256,6 +256,26 @@ func (ex *Exec) ctxDeadline(v Value) *Term {
 	}
 	c, ok := iv.v.(*CtxObj)
 	if !ok {
+		// a context type defined by the code under test (e.g. a struct embedding a
+		// context and overriding Deadline): ask it
+		if _, stub := iv.v.(StubObject); stub || ex.curFrame == nil {
+			return nil
+		}
+		sel := ex.eng.prog.MethodSets.MethodSet(iv.t).Lookup(nil, "Deadline")
+		if sel == nil {
+			return nil
+		}
+		m := ex.eng.prog.MethodValue(sel)
+		if m == nil {
+			return nil
+		}
+		r, ok := ex.callFunction(ex.curFrame, m, []Value{iv.v}, nil, 0).(Tuple)
+		if !ok || len(r) != 2 {
+			return nil
+		}
+		if has, ok := r[1].(*Term); ok && ex.branch(has) {
+			return ex.timeToInstant(r[0])
+		}
 		return nil
 	}
 	return c.deadline
@@ -486,6 +506,17 @@ func registerEnvStubs() {
 	stubTable["context.TODO"] = stubTable["context.Background"]
 }
 
+// ctxErrValue is the value of the context package's error variable of that name (so that
+// errors.Is and == against context.Canceled / context.DeadlineExceeded behave).
+func (ex *Exec) ctxErrValue(name, msg string) Value {
+	if pkg := ex.eng.prog.ImportedPackage("context"); pkg != nil {
+		if g := pkg.Var(name); g != nil {
+			return copyVal(*ex.globalAddr(g))
+		}
+	}
+	return ex.mkError(msg, nil)
+}
+
 // ctxDone reports whether a stub context chain is cancelled or (in logical-clock mode)
 // past its deadline.
 func (ex *Exec) ctxDone(v Value) bool {
@@ -539,6 +570,14 @@ func (ex *Exec) backoffRetry(fr *frame, op Value, b Value) Value {
 		err := ex.callValue(fr, op, nil, 0)
 		if e, ok := err.(Iface); ok && e.t == nil {
 			return nilErr()
+		}
+		if e, ok := err.(Iface); ok && e.t.String() == "*github.com/cenkalti/backoff/v4.PermanentError" {
+			// backoff.Permanent: Retry stops at once and returns the wrapped error
+			if p, ok := e.v.(*Value); ok && p != nil {
+				if st, ok := (*p).(Struct); ok && len(st) == 1 {
+					return st[0]
+				}
+			}
 		}
 		if ex.ctxDone(ctx) {
 			return ex.mkError("context done", nil)
